@@ -38,6 +38,9 @@ VIOLATIONS = [
     ("switch (1) { case 1: case 1: ; }", "block"), ("int z%d = *1;", "block"), ("struct nosuch_b z%d;", "block"), ("if (1 {}", "block"), ("z_undecl();", "block"),
     # found only when the statement is lowered (qbe.c), after it has been parsed: stores to const objects declared by the host function
     ("l_cq = 2;", "block"), ("l_cq += l_acc;", "block"), ("l_cs.m = 3;", "block"), ("l_acc = (l_cq = 5);", "block"), ("l_ca[1] = 0;", "block"), ("*l_pc = 1;", "block"), ("l_cs = l_cs;", "block"),
+    # violations inside type names (abstract declarators: no identifier whose location could be taken)
+    ("int z%d = sizeof(long [-1]);", "block"), ("int e%d = sizeof(long [-1]);", "file"), ("int z%d = _Alignof(int [-2]);", "block"), ("(void)sizeof(struct inc_t [4]);", "block"),
+    ("(void)(int (*)(void)[2])0;", "block"), ("int e%d = sizeof(int (*)(void)(void));", "file"), ("(void)sizeof(void [2]);", "block"), ("(void)_Generic(0, int (void)[1]: 1, default: 2);", "block"),
     ("int z%d = sizeof(int[);", "block"), ("void zv%d;", "block"), ("@macro-arity", "file"), ("@macro-arity", "block"), ("@macro-arity", "block"), ("int z%d = 1 +* ;"[:0] or "(void)undeclared_q;", "block"),
 ]
 
